@@ -307,7 +307,7 @@ def gfortran(text, workdir, tag):
         fh.write(text)
     try:
         p = subprocess.run(["gfortran", "-fopenmp", "-fopenacc", "-S", "-o", "/dev/null", f],
-                           cwd=workdir, capture_output=True, text=True, timeout=60)
+                           cwd=workdir, capture_output=True, text=True, timeout=900)
     except subprocess.TimeoutExpired:
         return None, "timeout"
     msg = ""
